@@ -26,10 +26,6 @@ macro_rules! total {
 total!(c07_client_hello_0, ClientHello, 0, 32, errs);
 total!(c07_client_hello_33, ClientHello, 33, 36, errs);
 total!(c07_client_hello_34, ClientHello, 34, 37, errs);
-total!(c07_client_hello_35, ClientHello, 35, 38, errs);
-total!(c07_client_hello_36, ClientHello, 36, 39, errs);
-total!(c07_client_hello_39, ClientHello, 39, 42);
-total!(c07_client_hello_42, ClientHello, 42, 45);
 total!(c07_server_hello_0, ServerHello, 0, 32, errs);
 total!(c07_server_hello_34, ServerHello, 34, 37, errs);
 total!(c07_server_hello_35, ServerHello, 35, 38, errs);
@@ -69,12 +65,12 @@ total_opt!(c07_hs_msg_11, HandshakeMessage, 11);
 total_opt!(c07_hs_msg_12, HandshakeMessage, 12);
 total_opt!(c07_hs_msg_16, HandshakeMessage, 16);
 
-/// canary: "ClientHello::decode never succeeds on 42 bytes" is false — must FAIL
+/// canary: "ServerHello::decode never succeeds on 38 bytes" is false — must FAIL
 #[kani::proof]
-#[kani::unwind(45)]
-fn canary_client_hello_42_always_err() {
-    let mut b = static_bytes::<42>();
-    let r = ClientHello::decode(&mut b);
+#[kani::unwind(41)]
+fn canary_server_hello_38_always_err() {
+    let mut b = static_bytes::<38>();
+    let r = ServerHello::decode(&mut b);
     let e = r.is_err();
     core::mem::forget(r);
     assert!(e);
